@@ -53,7 +53,8 @@ def _worker(names):
         after = lambda I, inst, R, frame, args: collected.extend(extra(I, inst, R, frame, args) or [])
     I, res, errs = analyse_all(facts, invariants, roots, after_root=after)
     obls = [(o.key, o.kind, o.inst, o.where, o.detail, o.ok, o.fail, o.contexts) for o in I.obls.values()]
-    return obls, I.notes, errs, collected, len(I.call_log), {n: None for n in res}
+    side = {"loops": I.loop_reports, "forall": I.forall_established, "contracts": I.contract_uses, "lemma_uses": I.lemma_uses}
+    return obls, I.notes, errs, collected, len(I.call_log), side
 
 
 def analyse_parallel(facts, invariants=None, roots=None, extra=None, jobs=None):
@@ -71,8 +72,19 @@ def analyse_parallel(facts, invariants=None, roots=None, extra=None, jobs=None):
     merged = {}
     notes, errs, collected = [], [], []
     calls = 0
-    for obls, ns, es, col, nc, _ in outs:
+    side = {"loops": {}, "forall": [], "contracts": {}, "lemma_uses": {}}
+    for obls, ns, es, col, nc, sd in outs:
         calls += nc
+        for k, v in sd["loops"].items():
+            prev = side["loops"].get(k)
+            if prev is None or (prev[0] and not v[0]):
+                side["loops"][k] = v
+        for x in sd["forall"]:
+            if x not in side["forall"]:
+                side["forall"].append(x)
+        for name in ("contracts", "lemma_uses"):
+            for k, v in sd[name].items():
+                side[name][k] = side[name].get(k, 0) + v
         notes.extend(ns)
         errs.extend(es)
         collected.extend(col)
@@ -84,7 +96,7 @@ def analyse_parallel(facts, invariants=None, roots=None, extra=None, jobs=None):
                 m["ok"] += ok
                 m["fail"].extend(fail)
                 m["contexts"] += contexts
-    return merged, notes, errs, collected, {"roots": len(names), "activations": calls, "wall_s": round(time.time() - t0, 1)}
+    return merged, notes, errs, collected, {"roots": len(names), "activations": calls, "wall_s": round(time.time() - t0, 1), "side": side}
 
 
 # ---------------------------------------------------------------------------------------------
